@@ -277,6 +277,24 @@ def sweep(ctx, task):
         if pi % n != i:
             continue
         acc.count('programs')
+        # the cache write of the very first build failing: no cache file may be left
+        world.start()
+        r0 = world.build(prog, fault={'k': None})
+        log0 = r0.fault['log']
+        for k in range(1, len(log0) + 1):
+            if log0[k - 1] != 'open':
+                continue
+            for f in ({'k': k, 'errno': errno.EIO}, {'k': k, 'errno': errno.EIO, 'file': ['write', 0]},
+                      {'k': k, 'errno': errno.EIO, 'file': ['write', 15]}, {'k': k, 'errno': errno.EIO, 'file': ['close']}):
+                world.start()
+                r = world.build(prog, fault=f)
+                acc.count('cache_write_faults')
+                take(acc, world, r, mine)
+                if world.cache_rel in r.after:
+                    acc.violations.append({'clause': 'persist.cache_file_left_after_failed_first_write', 'facts': {}, 'property': PROP,
+                                           'history': world.spec(), 'detail': {'fault': str(f)}})
+                r2 = world.build(prog)
+                take(acc, world, r2, mine)
         world.start()
         rs = []
         for step in range(3):
